@@ -225,6 +225,24 @@ func engineTimep(rep *Report) {
 		}
 		checkAdd(rep, ts, tn, ds, dn, false, "overflow-class")
 	}
+	// ---- overflow edge: the seconds sum lands exactly on (or one short of) MaxInt64 / MinInt64 and the nanos carry / borrow
+	for i := 0; i < 400; i++ {
+		k := 2 + r.Int63n(2000)
+		j := int64(i % 3) // 0: carry overflows; 1, 2: still fits
+		tn := int32(500000000 + r.Intn(500000000))
+		dn := int32(1000000000 - int(tn) + r.Intn(int(tn))) // tn+dn >= 1e9, dn < 1e9
+		if dn >= 1000000000 {
+			dn = 999999999
+		}
+		if i%2 == 0 {
+			checkAdd(rep, math.MaxInt64-k, tn, k-j, dn, false, "overflow-edge")
+		} else {
+			// borrow: nanos sum negative
+			tn2 := int32(r.Intn(400000000))
+			dn2 := -int32(int(tn2) + 1 + r.Intn(500000000))
+			checkAdd(rep, math.MinInt64+k, tn2, -(k - j), dn2, false, "overflow-edge")
+		}
+	}
 	// ---- Compare: instant order, antisymmetry, transitivity
 	var pool [][2]int64
 	for i := 0; i < 60; i++ {
